@@ -103,3 +103,14 @@ package ast_api_java
 //@ ensures old(hasEnterRestController) && currentImplements == "" ==> restAPIs[len(restAPIs) - 1].MethodName == GetText(Child(ctx, "identifier")) &&
 //@    restAPIs[len(restAPIs) - 1].PackageName == currentPkg && restAPIs[len(restAPIs) - 1].ClassName == currentClz
 //@ ensures old(hasEnterRestController) && currentImplements == "" ==> restAPIs[len(restAPIs) - 1].RequestBodyClass == BodyOf(ctx, old(requestBodyClass), NParams(ctx))
+
+// ---- helpers of the mapping callbacks, each against its own total specification
+//@ func unquote
+//@ ensures result == Unq1(text)
+
+//@ spec IsVerbName(s string) bool := s == "GetMapping" || s == "RequestMethod.GET" || s == "GET" || s == "PutMapping" || s == "RequestMethod.PUT" || s == "PUT" || s == "PostMapping" || s == "RequestMethod.POST" || s == "POST" || s == "DeleteMapping" || s == "RequestMethod.DELETE" || s == "DELETE"
+//@ func addApiMethod
+//@ modifies currentRestAPI
+//@ ensures IsVerbName(annotationName) ==> currentRestAPI.HttpMethod == VerbOf(annotationName)
+//@ ensures !IsVerbName(annotationName) ==> currentRestAPI.HttpMethod == old(currentRestAPI.HttpMethod)
+//@ ensures currentRestAPI.Uri == old(currentRestAPI.Uri)
